@@ -2,6 +2,7 @@
 package c10
 
 import (
+	"strings"
 	"fmt"
 	"time"
 
@@ -49,6 +50,7 @@ func init() {
 			&vexplore.Scenario{Name: fmt.Sprintf("core-objects-hist-D%d", d), Mode: "hist", Reset: kit.ResetGlobals, Body: func() { coreHist(d) },
 				NeedCounters: []string{"census-clean", "closed-listener", "closed-dialer", "closed-pipe", "redial-pending-at-close", "refused-pipe", "closed-in-attached-callback"}},
 			&vexplore.Scenario{Name: "socket-with-several-dialers-and-listeners-closed", Mode: "enum", Reset: kit.ResetGlobals, Body: c14.SeveralEndpointsClosed, NeedCounters: []string{"three-or-more-dialers-all-stopped"}},
+			&vexplore.Scenario{Name: "device-closed", Mode: "enum", Reset: kit.ResetGlobals, Body: deviceClosed, NeedCounters: []string{"device-forwarded-then-closed-clean"}},
 			&vexplore.Scenario{Name: "later-calls-with-send-and-receive-modes-set", Mode: "enum", Reset: kit.ResetGlobals, Body: laterCallsWithModes, NeedCounters: []string{"later-calls-closed-with-a-mode-set"}},
 			&vexplore.Scenario{Name: "close-context-only", Mode: "enum", Reset: kit.ResetGlobals, Body: closeContextOnly},
 			&vexplore.Scenario{Name: "tcp-close-vs-incoming-connection", Mode: "sched", Bound: b + 1, Reset: kit.ResetGlobals, Body: tcpCloseVsAccept},
@@ -195,6 +197,83 @@ func closeBlocked(k *kinds.Kind, useCtx bool) {
 	kit.Quiesce()
 	census(name)
 	kit.Observe("%s", name)
+}
+
+// deviceClosed: a Device between two raw sockets - two-way patterns (XREQ/XREP, XPAIR/XPAIR, XBUS,
+// XSURVEYOR/XRESPONDENT) and one-way ones (XSUB/XPUB, XPULL/XPUSH, where one direction has nothing
+// to receive) - forwards a message, then both sockets are closed: both forwarders end, nothing is
+// left (census after an hour of virtual time).
+func deviceClosed() {
+	type pair struct{ a, b string }
+	ps := []pair{{"xrep", "xreq"}, {"xpair", "xpair"}, {"xbus", "xbus"}, {"xrespondent", "xsurveyor"}, {"xsub", "xpub"}, {"xpull", "xpush"}, {"xpair1", "xpair1"}, {"xstar", "xstar"}}
+	p := ps[kit.ChooseFree(len(ps))]
+	order := kit.ChooseFree(2)
+	a, err := kinds.ByName(p.a).New()
+	if err != nil {
+		kit.Failf("setup", "NewSocket: %v", err)
+	}
+	b := a
+	if p.a != p.b || kit.ChooseFree(2) == 1 {
+		if b, err = kinds.ByName(p.b).New(); err != nil {
+			kit.Failf("setup", "NewSocket: %v", err)
+		}
+	}
+	epa, epb := vt.Get("c10-dev-a"), vt.Get("c10-dev-b")
+	if err := a.Listen("vt://c10-dev-a"); err != nil {
+		kit.Failf("setup", "Listen: %s", kit.ErrName(err))
+	}
+	if b != a {
+		if err := b.Listen("vt://c10-dev-b"); err != nil {
+			kit.Failf("setup", "Listen: %s", kit.ErrName(err))
+		}
+	}
+	if err := mangos.Device(a, b); err != nil {
+		kit.Failf("setup", "Device(%s, %s): %s", p.a, p.b, kit.ErrName(err))
+	}
+	pa := epa.Connect()
+	var pb *vt.Pipe
+	if b != a {
+		pb = epb.Connect()
+	} else {
+		pb = epa.Connect()
+	}
+	kit.Quiesce()
+	// one message in at the front (wire format of the front pattern)
+	switch kinds.ByName(p.a).Wire {
+	case "plain":
+		pa.Deliver([]byte("through-the-device"))
+	case "hop":
+		pa.Deliver(append([]byte{0, 0, 0, 1}, "through-the-device"...))
+	case "word":
+		pa.Deliver(append([]byte{0x80, 0, 0, 1}, "through-the-device"...))
+	}
+	kit.Quiesce()
+	forwarded := false
+	for _, sm := range pb.SentLog() {
+		if strings.Contains(string(sm.Data), "through-the-device") {
+			forwarded = true
+		}
+	}
+	if !forwarded && b != a && p.a != "xstar" && p.a != "xbus" {
+		kit.Failf("device-did-not-forward", "Device(%s, %s): a message that came in at the front was not passed to the back", p.a, p.b)
+	}
+	socks := []mangos.Socket{a}
+	if b != a {
+		socks = append(socks, b)
+	}
+	if order == 1 && len(socks) == 2 {
+		socks[0], socks[1] = socks[1], socks[0]
+	}
+	for _, s := range socks {
+		s := s
+		kit.Must("Close", func() { _ = s.Close() })
+		kit.Quiesce()
+	}
+	kit.Sleep(time.Hour)
+	kit.Quiesce()
+	census(fmt.Sprintf("device(%s,%s)", p.a, p.b))
+	kit.Count("device-forwarded-then-closed-clean")
+	kit.Observe("%s %s %d same=%v", p.a, p.b, order, b == a)
 }
 
 // laterCallsWithModes: the modes that make Send / Recv return early by themselves - fail-no-peers,
